@@ -5,7 +5,7 @@ chi-square against the CME with volume-scaled propensities."""
 import json, math, random
 from harness.common import fhex
 from harness import modelgen as G, replay as R
-from harness.props import c05, c06
+from harness.props import c01, c05, c06
 PID = "C11"; COQ_TARGET = "C11"
 RULE = ("replay: bounded random networks x constant V in (0.2,5), growing (cell cycle 1-8) and dividing time-threshold volumes, state-dependent volumes dividing on the volume itself (also in the delay + volume simulator), grid steps 0.25-2; ensemble: closed networks x V in {0.5,2,3.3}; "
         "non-trivial = volume differs from 1 or grows")
@@ -43,13 +43,36 @@ def gen_cases(seed, tier):
         cases.append(c)
     return cases
 
-impl_case = R.impl_replay
+def impl_case(case):
+    r = R.impl_replay(case)
+    # the rates the volume-aware simulator is handed by ITS interface (plain or safe, as the case says) at the initial state and volume:
+    # mass action must be the volume-scaled stochastic form there (seeded change S7_C11: the safe interface's volume path used the
+    # deterministic form k a^2 / V for 2A -> ...)
+    if isinstance(r, dict) and "rows" in r:
+        try:
+            import numpy as np
+            from bioscrape.simulator import ModelCSimInterface, SafeModelCSimInterface
+            M = G.build_model(case["spec"]); s2i = M.get_species2index()
+            I = (SafeModelCSimInterface if case.get("safe") else ModelCSimInterface)(M)
+            x = np.zeros(len(s2i))
+            for s_, v_ in case["spec"]["x0"].items(): x[s2i[s_]] = v_
+            r["rate_probe"] = [float(v) for v in I.py_compute_propensities(x.copy(), 0.0, "stochastic_volume", float(case["volume"]["V0"]))]
+        except Exception as e: r["rate_probe_error"] = "%s: %s" % (type(e).__name__, str(e)[:120])
+    return r
 driver_line = R.driver_line
 compare = R.compare
 
 def oracle(case, r):
     if not r or "rows" not in r: return "implementation failed: %s" % json.dumps(r)[:300]
     T = case["times"]; dt = T[1] - T[0]; vs = case["volume"]
+    if r.get("rate_probe") is not None and len(r["rate_probe"]) == len(case["spec"]["reactions"]):
+        for j, rx in enumerate(case["spec"]["reactions"]):
+            if rx["type"] != "massaction" or any(isinstance(v_, str) and v_ not in case["spec"]["parameters"] for k_, v_ in rx["params"].items() if k_ == "k"): continue
+            want = float(c01.closed_form(case["spec"], rx, "stochvol", case["spec"]["x0"], vs["V0"])[0]); got = r["rate_probe"][j]
+            short = any(case["spec"]["x0"][s_] < rx["reactants"].count(s_) + rx.get("delay", {}).get("reactants", []).count(s_) for s_ in set(rx["reactants"]) | set(rx.get("delay", {}).get("reactants", [])))
+            if case.get("safe") and short: want_ok = (got == 0.0) or abs(got - want) <= 1e-12 * max(1.0, abs(want))
+            else: want_ok = abs(got - want) <= 1e-12 * max(1.0, abs(want))
+            if not want_ok: return "scaled rates: reaction %d (%s -> ...) has rate %r through the %s interface at x0, V=%r; volume-scaled mass action gives %r" % (j, "+".join(rx["reactants"]) or "0", got, "safe" if case.get("safe") else "plain", vs["V0"], want)
     vols = [float.fromhex(v) for v in r["vols"]]; nrows = len(r["rows"])
     if len(vols) != nrows: return "shape: %d volumes for %d rows" % (len(vols), nrows)
     if any(v <= 0 for v in vols): return "positivity: volume trace %r" % vols
